@@ -760,16 +760,13 @@ theorem allDebFree_cleanupOld (env : Env) (old : Option Man) (st : Store) :
     · exact allDebFree_removeLayers _ _
   · exact allDebFree_nil
 
-theorem allDebFree_verify (env : Env) (ds : List Digest) (st : Store) : AllDebFree (verify env ds st).effs := by
-  induction ds with
-  | nil => exact allDebFree_nil
-  | cons d rest ih =>
-    unfold verify
-    split
-    · split
-      · exact ih
-      · intro e he; simp at he; subst he; rfl
+theorem allDebFree_verify1 (env : Env) (d : Digest) (st : Store) : AllDebFree (verify1 env d st).effs := by
+  unfold verify1
+  split
+  · split
     · exact allDebFree_nil
+    · intro e he; simp at he; subst he; rfl
+  · exact allDebFree_nil
 
 theorem allDebFree_cleanupPull (env : Env) (cand : List Digest) (st : Store) :
     AllDebFree (cleanupPull env cand st).effs := by
@@ -824,7 +821,7 @@ theorem downloads_seqDeb {strict : Bool} {world : Digest → Option Bytes} (env 
     (hstrict : strict = true → env.atomicPart = true) (hchunk : ∀ bs, (env.chunk bs).flatten = bs)
     (reg : Digest → Option Bytes) (hsub : ∀ d data, reg d = some data → world d = some data)
     (k : Nat) (ds : List Digest) (st : Store) (hinv : DebInv strict world st) :
-    SeqDeb strict world st (downloads env reg k ds st).1.effs := by
+    SeqDeb strict world st (downloads env reg k ds st).effs := by
   induction ds generalizing st k with
   | nil => trivial
   | cons d rest ih =>
@@ -834,15 +831,10 @@ theorem downloads_seqDeb {strict : Bool} {world : Digest → Option Bytes} (env 
     · split
       · trivial
       · rename_i data hr
-        dsimp only
         have hd := download_seqDeb (strict := strict) env hstrict hchunk k d data (hsub d data hr) st hinv.1
-        split
-        · cases hX : downloads env reg (k + 2) rest (run (download env k d data st).effs st) with
-          | mk b v =>
-            have := ih (k + 2) (run (download env k d data st).effs st) (seq_preserves_debInv hinv hd)
-            rw [hX] at this
-            exact seqDeb_append.mpr ⟨hd, this⟩
-        · exact hd
+        have hdv : SeqDeb strict world st ((download env k d data st).andThen st (verify1 env d)).effs :=
+          seqDeb_andThen hd (fun _ => seqDeb_debFree (allDebFree_verify1 env d _))
+        exact seqDeb_andThen hdv (fun _ => ih (k + 2) _ (seq_preserves_debInv hinv hdv))
 
 theorem pull_seqDeb {strict : Bool} {world : Digest → Option Bytes} (env : Env)
     (hstrict : strict = true → env.atomicPart = true) (hchunk : ∀ bs, (env.chunk bs).flatten = bs)
@@ -851,19 +843,12 @@ theorem pull_seqDeb {strict : Bool} {world : Digest → Option Bytes} (env : Env
     SeqDeb strict world st (pull env reg n m st).effs := by
   unfold pull
   dsimp only
-  have hds := downloads_seqDeb env hstrict hchunk reg hsub 0 (m.all.map Layer.digest) st hinv
-  cases hX : downloads env reg 0 (m.all.map Layer.digest) st with
-  | mk dl fresh =>
-    rw [hX] at hds
-    simp only at hds ⊢
-    apply seqDeb_andThen hds
-    intro _
-    apply seqDeb_debFree
-    apply allDebFree_andThen (allDebFree_verify env fresh _)
-    intro st2
-    apply allDebFree_andThen (allDebFree_writeManifest env _ n m)
-    intro st3
-    exact allDebFree_cleanupPull env _ st3
+  apply seqDeb_andThen (downloads_seqDeb env hstrict hchunk reg hsub 0 (m.all.map Layer.digest) st hinv)
+  intro _
+  apply seqDeb_debFree
+  apply allDebFree_andThen (allDebFree_writeManifest env _ n m)
+  intro st3
+  exact allDebFree_cleanupPull env _ st3
 
 /-- the registry of a pull serves what the world holds behind each digest -/
 def OpW (world : Digest → Option Bytes) : Op → Prop
@@ -937,28 +922,33 @@ theorem download_ok_of_whole (env : Env) (k : Nat) (d : Digest) (data : Bytes) (
     obtain ⟨r, rfl⟩ := h d c hR
     rfl
 
-theorem downloads_ok_whole {world : Digest → Option Bytes} (env : Env) (hap : env.atomicPart = true)
+theorem downloads_ok_whole {hash : Bytes → Digest} {world : Digest → Option Bytes} (env : Env)
+    (henv : env.hash = hash) (hap : env.atomicPart = true)
     (hchunk : ∀ bs, (env.chunk bs).flatten = bs)
-    (reg : Digest → Option Bytes) (hsub : ∀ d data, reg d = some data → world d = some data)
+    (reg : Digest → Option Bytes) (hreg : ∀ d data, reg d = some data → hash data = d)
+    (hsub : ∀ d data, reg d = some data → world d = some data)
     (k : Nat) (ds : List Digest) (st : Store)
-    (htot : ∀ d ∈ ds, (reg d).isSome = true) (hinv : DebInv true world st) :
-    (downloads env reg k ds st).1.ok = true := by
+    (htot : ∀ d ∈ ds, (reg d).isSome = true) (hinv : Inv hash st) (hdeb : DebInv true world st) :
+    (downloads env reg k ds st).ok = true := by
   induction ds generalizing st k with
   | nil => rfl
   | cons d rest ih =>
     unfold downloads
     have hrest : ∀ d' ∈ rest, (reg d').isSome = true := fun d' h => htot d' (List.mem_cons_of_mem _ h)
     split
-    · exact ih _ st hrest hinv
-    · cases hr : reg d with
+    · exact ih _ st hrest hinv hdeb
+    · rename_i hp
+      cases hr : reg d with
       | none => have := htot d (by simp); simp [hr] at this
       | some data =>
-        have hok := download_ok_of_whole env k d data st (hinv.2 rfl)
-        have hd := download_seqDeb (strict := true) env (fun _ => hap) hchunk k d data (hsub d data hr) st hinv.1
-        simp only [hok, ↓reduceIte]
-        have := ih (k + 2) (run (download env k d data st).effs st) hrest (seq_preserves_debInv hinv hd)
-        cases hX : downloads env reg (k + 2) rest (run (download env k d data st).effs st) with
-        | mk b v => rw [hX] at this; exact this
+        have hpart := hdeb.1 d data (hsub d data hr)
+        have hok := download_ok_of_whole env k d data st (hdeb.2 rfl)
+        have hd := download_seqDeb (strict := true) env (fun _ => hap) hchunk k d data (hsub d data hr) st hdeb.1
+        have hs := download_spec env henv hchunk k d data (hreg d data hr) st hpart (present_false_get hp)
+        dsimp only
+        rw [dl_verify_eq env henv hchunk k d data (hreg d data hr) st hinv hpart (present_false_get hp),
+          andThen_ok, hok]
+        exact ih (k + 2) _ hrest (seq_preserves_inv hinv hs.1) (seq_preserves_debInv hdeb hd)
 
 /-- From ANY store with the invariant, consistent debris and whole records, a pull from an honest
 registry that serves every layer of the manifest succeeds (fixed variant of `writePart`). -/
@@ -971,20 +961,10 @@ theorem pull_ok_whole {hash : Bytes → Digest} {world : Digest → Option Bytes
     (pull env reg n m st).ok = true := by
   have htot' : ∀ d ∈ m.all.map Layer.digest, (reg d).isSome = true := by
     intro d hd; obtain ⟨l, hl, rfl⟩ := List.mem_map.mp hd; exact htot l hl
-  have hds := downloads_spec env henv hchunk reg hreg 0 (m.all.map Layer.digest) st
-    (hdeb.1.pullPre reg hsub _)
-  have hok := downloads_ok_whole env hap hchunk reg hsub 0 (m.all.map Layer.digest) st htot' hdeb
-  have hsubf := downloads_fresh_sub env reg 0 (m.all.map Layer.digest) st
+  have hok := downloads_ok_whole env henv hap hchunk reg hreg hsub 0 (m.all.map Layer.digest) st htot' hinv hdeb
   unfold pull
   dsimp only
-  cases hX : downloads env reg 0 (m.all.map Layer.digest) st with
-  | mk dl fresh =>
-    rw [hX] at hds hok hsubf
-    simp only at hds hok hsubf ⊢
-    have hinv1 : Inv hash (run dl.effs st) := seq_preserves_inv hinv hds.1
-    have hv : (verify env fresh (run dl.effs st)).ok = true :=
-      verify_ok env fresh _ (henv ▸ hinv1.1) (fun d hd => hds.2.2 hok d (hsubf d hd))
-    rw [andThen_ok, andThen_ok, andThen_ok, hok, hv, writeManifest_ok, cleanupPull_ok]
-    rfl
+  rw [andThen_ok, andThen_ok, hok, writeManifest_ok, cleanupPull_ok]
+  rfl
 
 end OllamaVerif.StoreCrash
